@@ -252,7 +252,9 @@ class BaseLoadedMessage(LoadedMessageInterface):
         disposition = parsed.content_disposition
         language = parsed.content_language
         location = parsed.content_location
-        if maintype == 'multipart':
+        if maintype == 'multipart' and msg.body.has_nested:
+            # a multipart without any part (no boundary line found) cannot
+            # be written as body-type-mpart, which needs at least one body
             sub_body_structs = [cls._get_body_structure(part)
                                 for part in msg.body.nested]
             return MultipartBodyStructure(
